@@ -116,27 +116,27 @@ Fixpoint keygen_slice (d : nat) (in_slice : list term) (opt_seed : option term)
       (s5, oseed, pk)
   end.
 
-(* ---- update_slice: None = Err(KeyCannotBeUpdatedMore) ---- *)
-Fixpoint update_slice (d : nat) (key_slice : list term) (period : Z) : option (list term) :=
+(* ---- update_slice: returns (key_slice afterwards, ok); ok = false is
+   Err(KeyCannotBeUpdatedMore). The slice is returned on the error path too, so that
+   "a refused update changes nothing" is a statement about the model, not a convention:
+   the early return happens before any write, and `?` propagates a sub-key's error after
+   whatever the sub-call did to its part of the slice. ---- *)
+Fixpoint update_slice (d : nat) (key_slice : list term) (period : Z) : list term * bool :=
   match d with
-  | O => None
+  | O => (key_slice, false)
   | S d' =>
-      if period + 1 =? total d then None
+      if period + 1 =? total d then (key_slice, false)
       else
         match (period + 1) ?= half d with
         | Lt =>
-            match update_slice d' (firstn (ksize d') key_slice) period with
-            | None => None
-            | Some sub => Some (sub ++ skipn (ksize d') key_slice)
-            end
+            let '(sub, ok) := update_slice d' (firstn (ksize d') key_slice) period in
+            (sub ++ skipn (ksize d') key_slice, ok)
         | Eq =>
             let '(sub, _, _) := keygen_slice d' (firstn (ksize d' + 1) key_slice) None in
-            Some (sub ++ skipn (ksize d' + 1) key_slice)
+            (sub ++ skipn (ksize d' + 1) key_slice, true)
         | Gt =>
-            match update_slice d' (firstn (ksize d') key_slice) (period - half d) with
-            | None => None
-            | Some sub => Some (sub ++ skipn (ksize d') key_slice)
-            end
+            let '(sub, ok) := update_slice d' (firstn (ksize d') key_slice) (period - half d) in
+            (sub ++ skipn (ksize d') key_slice, ok)
         end
   end.
 
@@ -150,22 +150,33 @@ Definition keygen (d : nat) (key_buffer : list term) (seed : term) : key * term 
   let '(b, oseed, pk) := keygen_slice d key_buffer (Some seed) in
   ((b, 0), pk, match oseed with Some z => z | None => seed end).
 
-Definition update (d : nat) (k : key) : option key :=
+(* KesSk::update: period = be32(buffer[SIZE..]); update_slice(&mut buffer[..SIZE], period)?;
+   buffer[SIZE..] = be32(period + 1).  Returns (key afterwards, ok): on Err the period
+   bytes are not written (the `?` returns first) and the buffer is whatever update_slice
+   left. *)
+Definition update (d : nat) (k : key) : key * bool :=
   let '(b, period) := k in
-  match update_slice d b period with
-  | None => None
-  | Some b' => Some (b', period + 1)
-  end.
+  let '(b', ok) := update_slice d b period in
+  if ok then ((b', period + 1), true) else ((b', period), false).
 
 (* to_pk: hash_pair of the last two slots *)
 Definition to_pk (d : nat) (k : key) : term :=
   H2 (get (ksize d - 2) (key_buf k)) (get (ksize d - 1) (key_buf k)).
 
-(* n successful updates in a row *)
+(* n successful updates in a row (None as soon as one is refused) *)
 Fixpoint updates (d : nat) (n : nat) (k : key) : option key :=
   match n with
   | O => Some k
-  | S n' => match updates d n' k with None => None | Some k' => update d k' end
+  | S n' => match updates d n' k with
+            | None => None
+            | Some k' => let '(k'', ok) := update d k' in if ok then Some k'' else None
+            end
+  end.
+(* n update() calls whatever their result: the key the caller is left with *)
+Fixpoint update_calls (d : nat) (n : nat) (k : key) : key :=
+  match n with
+  | O => k
+  | S n' => fst (update d (update_calls d n' k))
   end.
 
 (* ---- SumKes signatures ---- *)
